@@ -5,7 +5,7 @@ import itertools, re
 PROP = "C07"
 HARNESS = "al"
 COMPONENT = "al"
-TIE = ["TranslatedAl"]       # Lemmas/TranslatedAl.lean: Model/Arraylist.lean = arraylist.c growth/shrink as translated by tools/extract/c2lean.py
+TIE = ["TranslatedAl", "TranslatedCtor"]       # Lemmas/TranslatedAl.lean: Model/Arraylist.lean = arraylist.c growth/shrink as translated by tools/extract/c2lean.py
 VARIANT = "asan"
 WRAPS = ("malloc", "calloc", "realloc")
 SIZE_MAX = (1 << 64) - 1
